@@ -79,8 +79,9 @@ type pendingControlRequest struct {
 
 // forwardedControlRequest tracks a request we forwarded so we can route the response back.
 type forwardedControlRequest struct {
-	RequestID  uint64
+	RequestID  uint64           // ID the source peer used (restored on the way back)
 	SourcePeer identity.AgentID // Peer who sent us the request
+	NextHop    identity.AgentID // Peer we forwarded the request to
 	CreatedAt  time.Time
 }
 
@@ -2420,11 +2421,19 @@ func (a *Agent) handleControlRequest(peerID identity.AgentID, frame *protocol.Fr
 			return
 		}
 
-		// Track this forwarded request so we can route the response back
+		// Track this forwarded request so we can route the response back.
+		// Request IDs are only unique per originating agent (every agent counts
+		// 1, 2, 3, ...), so the request travels onward under an ID allocated
+		// from our own counter - the one our own requests use, which keeps
+		// pendingControl and forwardedControl keys disjoint. The original ID is
+		// restored when the response is relayed back to the source peer.
 		a.controlMu.Lock()
-		a.forwardedControl[req.RequestID] = &forwardedControlRequest{
+		a.nextControlID++
+		localID := a.nextControlID
+		a.forwardedControl[localID] = &forwardedControlRequest{
 			RequestID:  req.RequestID,
 			SourcePeer: peerID,
+			NextHop:    nextHop,
 			CreatedAt:  time.Now(),
 		}
 		a.controlMu.Unlock()
@@ -2437,7 +2446,7 @@ func (a *Agent) handleControlRequest(peerID identity.AgentID, frame *protocol.Fr
 			"source_peer", peerID.ShortString())
 
 		fwdReq := &protocol.ControlRequest{
-			RequestID:   req.RequestID,
+			RequestID:   localID,
 			ControlType: req.ControlType,
 			TargetAgent: req.TargetAgent,
 			Path:        remainingPath,
@@ -2454,7 +2463,7 @@ func (a *Agent) handleControlRequest(peerID identity.AgentID, frame *protocol.Fr
 				logging.KeyPeerID, nextHop.ShortString(),
 				logging.KeyError, err)
 			a.controlMu.Lock()
-			delete(a.forwardedControl, req.RequestID)
+			delete(a.forwardedControl, localID)
 			a.controlMu.Unlock()
 			a.sendControlResponse(peerID, req.RequestID, req.ControlType, false, []byte("failed to forward: "+err.Error()))
 		}
@@ -2511,9 +2520,13 @@ func (a *Agent) handleControlResponse(peerID identity.AgentID, frame *protocol.F
 		delete(a.pendingControl, resp.RequestID)
 	}
 
+	// A forwarded entry is only consumed by a response arriving from the peer
+	// the request was forwarded to.
 	forwarded, hasForwarded := a.forwardedControl[resp.RequestID]
-	if hasForwarded {
+	if hasForwarded && !hasPending && forwarded.NextHop == peerID {
 		delete(a.forwardedControl, resp.RequestID)
+	} else {
+		hasForwarded = false
 	}
 	a.controlMu.Unlock()
 
@@ -2532,6 +2545,9 @@ func (a *Agent) handleControlResponse(peerID identity.AgentID, frame *protocol.F
 		a.logger.Debug("forwarding control response",
 			"to", forwarded.SourcePeer.ShortString(),
 			"request_id", resp.RequestID)
+
+		// Restore the ID the source peer used for this request
+		resp.RequestID = forwarded.RequestID
 
 		responseFrame := &protocol.Frame{
 			Type:     protocol.FrameControlResponse,
